@@ -170,6 +170,16 @@ func init() {
 	})
 }
 
+func init() {
+	register("C03", &Property{
+		Title: "Flattening approximates every curve within the requested tolerance",
+		Explanation: "Decides the 'made only of straight segments' clause for every input and tolerance: by command-set typing over the whole package, Flatten's result can contain only MoveTo/LineTo/Close (plus such commands inherited from the receiver) and ReplaceArcs' result no ArcTo; the replace driver has the validated splice shape (each kind calls its own non-nil replacer, the record is cut before the replacement is joined, the cursor restarts at the re-attached remainder, so every remaining command passes through the switch); the consumers that rely on it (ToPDF/Tile arc panics, stride-4 scanner loops, the sweep's non-flat panic) only see such paths. NOT decided: the error bound, vertex order, same end points, termination as the tolerance goes to 0, X-monotonicity.",
+		Run: func(c *core.Ctx, r *core.Report) {
+			E10Flatness(c, r)
+		},
+	})
+}
+
 // c20APIRoots is the concurrent/deterministic API set derived from the text of C20.
 func c20APIRoots(c *core.Ctx) []*ssa.Function {
 	var out []*ssa.Function
